@@ -130,8 +130,32 @@ def run(chk):
     fn = fx.fn('crates/erg_common/opcode.rs', 'CommonOpcode::is_jump_op')
     arrs = [n for n in T.walk(fn['body']) if n.get('k') == 'Array']
     members = None
-    if chk.need(len(arrs) == 1 and all(a.get('k') == 'Lit' for a in arrs[0]['a']), 'is_jump_op: expected one literal array'):
+    # the set is written as one literal array (`[..].contains(&op)`) or as the patterns of a `matches!` / match whose arm answers true
+    form_ok = len(arrs) == 1 and all(a.get('k') == 'Lit' for a in arrs[0]['a'])
+    if form_ok:
         members = [a['v']['int'] for a in arrs[0]['a']]
+    else:
+        ms_ = [n for n in T.walk(fn['body']) if n.get('k') == 'Match']
+        if len(ms_) == 1:
+            mem = []
+            ok_ = True
+            for arm in ms_[0]['arms']:
+                b_ = T.peel(arm['b'])
+                val = (b_.get('v') or {}).get('bool') if b_.get('k') == 'Lit' else None
+                if val is True and 'g' not in arm:
+                    r = pat_int_ranges(arm['pat'])
+                    if r is None:
+                        ok_ = False
+                    else:
+                        for lo, hi in r:
+                            mem += list(range(lo, hi + 1))
+                elif val is False and arm['pat'].get('k') == 'Wild':
+                    pass
+                else:
+                    ok_ = False
+            if ok_ and mem:
+                members, form_ok = sorted(set(mem)), True
+    if chk.need(form_ok, 'is_jump_op: the set of jump opcodes is neither one literal array nor the patterns of one match'):
         chk.floor('is_jump_op_members', len(members), 8)
         for ver in ['3.7', '3.8', '3.9', '3.10', '3.11']:
             jumps = set(ref[ver]['hasjrel']) | set(ref[ver]['hasjabs'])
